@@ -89,14 +89,19 @@ def readNamesList : List SExpr → List String
   | e :: es => readNames e ++ readNamesList es
 end
 
+/-- every name occurring in the statement's expressions -/
+def KStmt.rawReads (s : KStmt) : List String :=
+  readNames s.rhs ++ readNamesList s.lhsIdx ++
+    s.lets.flatMap (fun l => readNames l.2) ++
+    s.loops.flatMap (fun l => readNames l.2.1 ++ readNames l.2.2)
+
+/-- names bound locally by the statement: loop variables and lets -/
+def KStmt.locals (s : KStmt) : List String := s.loops.map (·.1) ++ s.lets.map (·.1)
+
 /-- every name a statement may read from the store (loop variables and its own
     lets are bound locally and excluded) -/
 def KStmt.reads (s : KStmt) : List String :=
-  let local_ := s.loops.map (·.1) ++ s.lets.map (·.1)
-  let all := readNames s.rhs ++ readNamesList s.lhsIdx ++
-    s.lets.flatMap (fun l => readNames l.2) ++
-    s.loops.flatMap (fun l => readNames l.2.1 ++ readNames l.2.2)
-  all.filter fun x => !local_.contains x
+  s.rawReads.filter fun x => !s.locals.contains x
 
 /-- ids reachable through `deps` (fuel = number of statements suffices) -/
 def depClosure (k : Kernel) : Nat → List String → List String
@@ -110,7 +115,8 @@ def writerOf (k : Kernel) (x : String) : Option KStmt := k.find? fun s => !s.noo
 /-- the static check: single assignment; dependencies name existing statements;
     every array a statement reads is an input (no statement writes it) or is
     written by a statement among its transitive dependencies; no statement
-    reads what it writes; let-names are not written by statements. -/
+    reads what it writes; local names (loop variables, lets) are not written by
+    statements. -/
 def checkKernel (k : Kernel) : Bool :=
   let ids := k.map (·.id)
   let written := (k.filter (!·.noop)).map (·.lhs)
@@ -119,7 +125,7 @@ def checkKernel (k : Kernel) : Bool :=
   k.all (fun s =>
     s.noop ||
     (!(s.reads.contains s.lhs) &&
-     s.lets.all (fun l => !written.contains l.1) &&
+     s.locals.all (fun x => !written.contains x) &&
      s.reads.all (fun x =>
       match writerOf k x with
       | none => true
